@@ -36,6 +36,9 @@ RULE = ('1-D: input pixel i at loglam c0+1e-4*i; a case = (n, zero-weight bit pa
 ASSUMPTIONS = [
     '"does not lie between two adjacent good input pixels" is read most permissively: an output pixel may carry weight iff, '
     'for some exposure, it coincides with a good pixel or lies strictly between two adjacent pixels that are both good',
+    '"next to ... runs of zero-weight pixels": on output grids that contain the input lattice (same, wider) a pixel '
+    'immediately adjacent to a run of >= 3 consecutive zero-weight pixels must also be zero (the source comments define a '
+    'run as "3 or more pixels rejected together"); single and double bad pixels put no such demand on their neighbours',
     'identity / reproduction clauses are demanded (a) on the identical grid wherever the output ivar is > 0 (flux within 1e-4 '
     'relative of the input; float32 spline knots limit accuracy to ~1e-5) and (b) as a liveness guard only where every input '
     'pixel within 5 pixels of the output position exists and is good (ivar > 0 there, flux within 1e-4 of the analytic shape)',
@@ -130,6 +133,14 @@ def why_zero(k, good):
     return 'next-to-bad-pixel'
 
 
+def next_to_run(i, good, run=3):
+    """Good pixel i is immediately adjacent to `run` or more consecutive zero-weight pixels."""
+    n = len(good)
+    left = i - run >= 0 and not any(good[i - run:i])
+    right = i + run <= n - 1 and not any(good[i + 1:i + run + 1])
+    return left or right
+
+
 def clean(k, good, margin=5):
     """Every input pixel within `margin` pixels of k exists and is good."""
     n = len(good)
@@ -215,6 +226,9 @@ def check_c1(case):
         if ni[j] != 0:
             if not may_have_weight(k, good):
                 add('%s:ivar-nonzero:%s' % (E, why_zero(k, good)), 'output pixel %d (k=%g) has ivar %r' % (j, k, ni[j]))
+                continue
+            if case['grid'] in ('same', 'wider') and next_to_run(int(k), good):
+                add(E + ':ivar-nonzero:adjacent-to-bad-run>=3', 'output pixel %d (k=%g) has ivar %r' % (j, k, ni[j]))
                 continue
             if iv is not None:
                 if abs(ni[j] - expiv[j]) > 1e-9 * abs(expiv[j]):
@@ -334,7 +348,9 @@ def check_pp(case):
     pos = [case['pos'] + 7 * o for o in range(nobj)]
     flux = np.array([10.0 + 5.0 * np.exp(-0.5 * ((kk - p) / 2.5) ** 2) for p in pos])
     ivar = np.full((nobj, npx), 4.0)
-    ll = lam(kk) if not case['ll2d'] else np.array([lam(kk) for _ in range(nobj)])
+    # 2-D wavelength solution: object o starts 3*o pixels later, so rows must not be mixed up
+    lshift = [3 * o if case['ll2d'] else 0 for o in range(nobj)]
+    ll = lam(kk) if not case['ll2d'] else np.array([lam(kk + lshift[o]) for o in range(nobj)])
     kw = {}
     if case.get('aes'):
         kw['aesthetics'] = case['aes']
@@ -361,7 +377,7 @@ def check_pp(case):
         bad.append((E + ':negative-ivar', 'negative ivar'))
     for o in range(nobj):
         w = nivar[o] > 0
-        expect = float(lam(pos[o])) - math.log10(1.0 + z[o])
+        expect = float(lam(pos[o] + lshift[o])) - math.log10(1.0 + z[o])
         if not w.any():
             bad.append((E + ':feature-position', 'object %d: no output pixel with ivar > 0' % o))
             break
@@ -413,8 +429,8 @@ def tasks(tier):
             t.append({'f': 'c1', 'n': 12, 'lo': hi << 9, 'hi': (hi + 1) << 9, 'grids': ['same', 'half', 'wider'], 'aes': ['traditional'],
                       'fi': [['sine', 'ramp']], 'scale': True})
     else:
-        for hi in range(8):
-            t.append({'f': 'c1', 'n': 10, 'lo': hi << 7, 'hi': (hi + 1) << 7, 'grids': ['same', 'half', 'wider'], 'aes': ['traditional', 'mean'],
+        for hi in range(16):
+            t.append({'f': 'c1', 'n': 10, 'lo': hi << 6, 'hi': (hi + 1) << 6, 'grids': ['same', 'half', 'wider'], 'aes': ['traditional', 'mean'],
                       'fi': [['sine', 'const']], 'scale': False})
         # n = 14, every pattern whose zero-weight pixels lie in the first 8 with pixel 7 among them (contains the smallest
         # patterns that make the band matrix of the spline fit numerically indefinite)
